@@ -120,6 +120,10 @@ impl Cal {
     }
     #[inline]
     pub fn of(&self, n: i32) -> (i32, u32, u32) {
+        if self.ymd.is_empty() {
+            let (y, m, d) = civil_from_days(n as i64);
+            return (y as i32, m, d);
+        }
         let (y, m, d) = self.ymd[(n - MIN_DAY) as usize];
         (y as i32, m as u32, d as u32)
     }
@@ -130,8 +134,13 @@ impl Cal {
 }
 
 static CAL: OnceLock<Cal> = OnceLock::new();
+static LIGHT: std::sync::atomic::AtomicBool = std::sync::atomic::AtomicBool::new(false);
+/// sanitizer slices (Miri is ~1000x slower): no table, closed forms only (the table self-check runs in every native leg)
+pub fn set_light_mode() {
+    LIGHT.store(true, std::sync::atomic::Ordering::SeqCst);
+}
 pub fn cal() -> &'static Cal {
-    CAL.get_or_init(Cal::build)
+    CAL.get_or_init(|| if LIGHT.load(std::sync::atomic::Ordering::SeqCst) { Cal { ymd: vec![] } } else { Cal::build() })
 }
 
 /// Monday that starts ISO year `y`: Monday of the week containing 4 January.
